@@ -1,9 +1,10 @@
 (* Bridges between the hand-written Model/Transform.v and the definitions regenerated from
    biom/table.py by tools/py2v_wrap (Gen/TransformWrapGen.v over Gen/WrapPrelude.v). *)
-From Coq Require Import List Arith ZArith Bool Lia.
+From Coq Require Import List Arith ZArith QArith Bool Lia.
 From BiomV Require Import Base.Tree Base.ListUtil Base.Matrix Model.Table Model.Stored Model.Reorder
   Model.Transform Gen.WrapPrelude Gen.TransformWrapGen.
 Import ListNotations.
+Close Scope Q_scope.
 
 Lemma w_nth_map_seq {B} (g : nat -> B) n i d : i < n -> nth i (map g (seq 0 n)) d = g i.
 Proof.
@@ -126,7 +127,7 @@ Proof.
     cbn [sp_axis sp_eliminate_zeros]. rewrite (dense_eliminate a (axis_vecs a t) lay _ HN).
     fold (transform_table a lay (outs_of f a lay t) t).
     destruct table0; reflexivity. }
-  destruct inplace.
+  destruct inplace; cbn [negb].
   - cbn [obj_keep]. rewrite (K t eq_refl (heap0 t) RSelf eq_refl).
     destruct (outs_fit a lay (outs_of f a lay t) t); reflexivity.
   - destruct HI as [HI|HI]; [discriminate|]. unfold tb_copy. cbn [heap0 deref h_self h_new].
@@ -153,4 +154,14 @@ Theorem rankdata_bridge : forall lay (rk : Z -> list Z -> list Z) a inplace m t,
 Proof.
   intros lay rk a inplace m t HN HI. unfold rankdata_gen, rankdata, transform_with. cbn [heap0 deref h_self].
   rewrite (transform_bridge lay _ a inplace t HN HI). reflexivity.
+Qed.
+
+(* norm: the function handed over is Model/Transform.v norm_fn, on the chosen axis; unconditional *)
+Lemma norm_fn_bridge val : np_div_q val (py_float (np_sum val)) = norm_fn val.
+Proof. reflexivity. Qed.
+
+Theorem norm_bridge : forall lay a inplace t, norm_gen lay t a inplace = norm_vecs a lay t.
+Proof.
+  intros lay a inplace t. unfold norm_gen, norm_vecs, tb_transform_q, transform_calls. cbn [heap0 deref h_self].
+  rewrite map_map. reflexivity.
 Qed.
